@@ -445,7 +445,8 @@ fn main() {
     let n = ctx.tier.pick(6_000, 120_000);
     let max_classes = ctx.tier.pick(10, 40);
     run_cases(&ctx, &replay, &mut rep, "generated", n, |rng, rep, case| {
-        let job = generated_job(rng, if case % 8 == 7 { max_classes } else { 10.min(max_classes) }, &scratch, case);
+        // every 8th jar up to 40 classes (quick: every 32nd), every 128th up to 150: sizes at which containers / lookups may change strategy
+        let job = generated_job(rng, if case % 128 == 127 { 150 } else if case % 8 == 7 && (max_classes > 10 || case % 32 == 31) { 40 } else { 10 }, &scratch, case);
         let o = run_job(rep, &job, Wrong::No);
         rep.count("jars.generated");
         account(rep, &job, &o);
@@ -461,7 +462,7 @@ fn main() {
     let _ = std::fs::remove_dir_all(&scratch);
     if std::env::var("C07_TIMING").is_ok() { eprintln!("C07_TIMING generated done {:.1}s", ctx.elapsed_s()); }
 
-    let mut meta = Meta::new("exploration", "jars of 1..10 (every 8th: up to 40 in thorough) generated classes (cf::gen, references re-pointed at members declared inside the jar, in super types inside and outside the jar; inner-class / nest / sealed records between jar classes; overloads, same-named fields, enum constants, lambda-shaped call sites) plus resources and directories, and jars of javac corpus groups; mapping sets keyed by the jar's own classes and members (partial, package moves, inner classes following their outer class, identity entries, 2-cycles, 2 or 3 namespaces in every direction); five jar front ends; a jar is non-trivial if at least one class-name answer and one member-name answer of the remapper differ from the original; distinct = distinct (scenario tags, set of position kinds renamed)")
+    let mut meta = Meta::new("exploration", "jars of 1..10 (every 8th, quick every 32nd: up to 40; every 128th: up to 150) generated classes (cf::gen, references re-pointed at members declared inside the jar, in super types inside and outside the jar; inner-class / nest / sealed records between jar classes; overloads, same-named fields, enum constants, lambda-shaped call sites) plus resources and directories, and jars of javac corpus groups; mapping sets keyed by the jar's own classes and members (partial, package moves, inner classes following their outer class, identity entries, 2-cycles, 2 or 3 namespaces in every direction); five jar front ends; a jar is non-trivial if at least one class-name answer and one member-name answer of the remapper differ from the original; distinct = distinct (scenario tags, set of position kinds renamed)")
         .assume("the expectation is defined through the real remapper (the property says: what the remapper answers); a defect of the remapper itself is C06's subject")
         .assume("the independent parser/emitter (harness/cf) implement JVMS chapter 4; cross-checked on every generated class (parse(emit(M)) == M) and on the javac corpus")
         .assume("not judged: generic Signature strings and LocalVariableTypeTable signatures, InnerClasses.inner_name, invokedynamic/condy names without LambdaMetafactory shape, annotation element names whose annotation type is not a class of the jar, entry order, timestamps/compression of entries");
